@@ -19,7 +19,12 @@ CLAIMS = {
                 'without any syntax tree: one value for a name or index, all members in ascending key order / all elements in index order '
                 'for a wildcard, `..step` = the step applied to every container below in pre-order), in order, with locations in accessor mode, failing exactly when nothing is reached — by induction over the '
                 'step list through the PEG derivation, the token replay, setNodeChain, the value-group bookkeeping and setConnectedText. '
-                'Not a theorem for the other step kinds: which AST a given text denotes (parser model vs '
+                'C01_filter_retrieval (FiltParse.v, FiltChain.v, FiltAddr.v, FiltChainAddr.v, Frame.v): the same when steps may be existence filters '
+                '`[?(@ inner)]` over a path of inner steps: a filter step keeps the elements of an array (index order) / members of an object '
+                '(ascending key order) from which the inner steps reach something (PEG derivation through qualifier/filter/query/basicQuery with '
+                'the failing comparison alternatives, saveParams/loadParams by a frame lemma over all 46 actions, the existence verdicts of the '
+                'specification); the harness sends such texts (driver confirms Coq fchain_path) with the expected values from walking the document. '
+                'Not a theorem for the other step kinds (comparison filters, multi-name selectors, scripts): which AST a given text denotes (parser model vs '
                 'real parser by tree dumps and through the API). Correspondence: generated paths x documents; the extracted '
                 'specification runs next to the model on every case (a model/spec difference is reported).',
         'note': NOTE_COMMON + EVAL_HYP + ' The specification states the library conventions explicitly (whole-match $ operands, both-absent rule of path == path).',
